@@ -236,23 +236,27 @@ def filter_args(func, ignore_lst, args=(), kwargs=dict()):
             )
         return {"*": args, "**": kwargs}
     arg_sig = inspect.signature(func)
+    # Names of the parameters that can be passed positionally, in order
     arg_names = []
-    arg_defaults = []
+    arg_posonlyargs = []
     arg_kwonlyargs = []
+    arg_defaults = dict()
     arg_varargs = None
     arg_varkw = None
     for param in arg_sig.parameters.values():
-        if param.kind is param.POSITIONAL_OR_KEYWORD:
+        if param.kind is param.POSITIONAL_ONLY:
+            arg_names.append(param.name)
+            arg_posonlyargs.append(param.name)
+        elif param.kind is param.POSITIONAL_OR_KEYWORD:
             arg_names.append(param.name)
         elif param.kind is param.KEYWORD_ONLY:
-            arg_names.append(param.name)
             arg_kwonlyargs.append(param.name)
         elif param.kind is param.VAR_POSITIONAL:
             arg_varargs = param.name
         elif param.kind is param.VAR_KEYWORD:
             arg_varkw = param.name
         if param.default is not param.empty:
-            arg_defaults.append(param.default)
+            arg_defaults[param.name] = param.default
     if inspect.ismethod(func):
         # First argument is 'self', it has been removed by Python
         # we need to add it back:
@@ -269,46 +273,40 @@ def filter_args(func, ignore_lst, args=(), kwargs=dict()):
     # as on ndarrays.
 
     _, name = get_func_name(func, resolv_alias=False)
+    if arg_varargs is None and arg_kwonlyargs and len(args) > len(arg_names):
+        raise ValueError(
+            "Keyword-only parameter '%s' was passed as "
+            "positional parameter for %s:\n"
+            "     %s was called."
+            % (
+                arg_kwonlyargs[0],
+                _signature_str(name, arg_sig),
+                _function_called_str(name, args, kwargs),
+            )
+        )
     arg_dict = dict()
-    arg_position = -1
-    for arg_position, arg_name in enumerate(arg_names):
-        if arg_position < len(args):
+    for arg_position, arg_name in enumerate(arg_names + arg_kwonlyargs):
+        if arg_position < len(arg_names) and arg_position < len(args):
             # Positional argument or keyword argument given as positional
-            if arg_name not in arg_kwonlyargs:
-                arg_dict[arg_name] = args[arg_position]
-            else:
-                raise ValueError(
-                    "Keyword-only parameter '%s' was passed as "
-                    "positional parameter for %s:\n"
-                    "     %s was called."
-                    % (
-                        arg_name,
-                        _signature_str(name, arg_sig),
-                        _function_called_str(name, args, kwargs),
-                    )
-                )
-
+            arg_dict[arg_name] = args[arg_position]
+        elif arg_name in kwargs and arg_name not in arg_posonlyargs:
+            arg_dict[arg_name] = kwargs[arg_name]
+        elif arg_name in arg_defaults:
+            arg_dict[arg_name] = arg_defaults[arg_name]
         else:
-            position = arg_position - len(arg_names)
-            if arg_name in kwargs:
-                arg_dict[arg_name] = kwargs[arg_name]
-            else:
-                try:
-                    arg_dict[arg_name] = arg_defaults[position]
-                except (IndexError, KeyError) as e:
-                    # Missing argument
-                    raise ValueError(
-                        "Wrong number of arguments for %s:\n"
-                        "     %s was called."
-                        % (
-                            _signature_str(name, arg_sig),
-                            _function_called_str(name, args, kwargs),
-                        )
-                    ) from e
+            # Missing argument
+            raise ValueError(
+                "Wrong number of arguments for %s:\n"
+                "     %s was called."
+                % (
+                    _signature_str(name, arg_sig),
+                    _function_called_str(name, args, kwargs),
+                )
+            )
 
     varkwargs = dict()
     for arg_name, arg_value in sorted(kwargs.items()):
-        if arg_name in arg_dict:
+        if arg_name in arg_dict and arg_name not in arg_posonlyargs:
             arg_dict[arg_name] = arg_value
         elif arg_varkw is not None:
             varkwargs[arg_name] = arg_value
@@ -321,7 +319,7 @@ def filter_args(func, ignore_lst, args=(), kwargs=dict()):
     if arg_varkw is not None:
         arg_dict["**"] = varkwargs
     if arg_varargs is not None:
-        varargs = args[arg_position + 1 :]
+        varargs = args[len(arg_names) :]
         arg_dict["*"] = varargs
 
     # Now remove the arguments to be ignored
